@@ -12,10 +12,15 @@ import json
 import os
 import random
 
-from . import common, grammar_common as gc, grammar_reps
+from . import common, grammar_cfgs, grammar_common as gc, grammar_reps
 from .common import log
 
-LAYOUTS = {"quick": 3, "thorough": 6}
+LAYOUTS = {"quick": 2, "thorough": 6}      # seeded random layouts (0 = single spaces); one systematic layout is added per module
+SPECIAL_LAYOUT, N_SPECIAL_LAYOUTS = 100, 3     # harness/src/grammar/render.rs: SPECIAL, N_SPECIAL
+# Every cell is re-parsed by Trace_Grammar except the nests of LISTS (f(f(..)), [[..]], S { m: S { .. } }): the grammar
+# offers an optional trailing comma per list, which the trace specification can only refute at the closing bracket, i.e.
+# 2^depth open alternatives (measured: 1.2 million states and no end for depth 130).
+UNTRACEABLE_DEEP = {"call", "array", "structural", "mixed"}
 SIM = {"quick": 200, "thorough": 3000}
 TRACE_SAMPLE = {"quick": 1500, "thorough": 12000}
 
@@ -48,18 +53,22 @@ class Findings:
 
 
 def example(case, layout, d, a, message):
-    return {"case": {"id": case["id"], "focus": case.get("focus"), "toks": case["toks"], "tree": case["tree"]},
-            "source_tokens": gc.canon(case), "layout": layout, "message": message, "delta": d, "alpha": a}
+    return {"case": {"id": case["id"], "focus": case.get("focus"), "cell": case.get("cell"), "toks": case["toks"], "tree": case["tree"]},
+            "source_tokens": gc.canon(case)[:4000], "layout": layout, "message": message, "delta": d, "alpha": a}
 
 
 def compare_case(case, obs, k, fnd, stats, rep):
     exp = case["tree"]
     unconstrained = case["focus"] in gc.UNCONSTRAINED
     d0, a0 = obs["d"][0], obs["a"][0]
-    for j in range(k):
-        d = d0 if obs["d"][j] == "=" else obs["d"][j]
-        a = a0 if obs["a"][j] == "=" else obs["a"][j]
+    # k seeded random layouts, then one systematic layout (harness render.rs: SPECIAL + id % 3)
+    for jj in range(len(obs["d"])):
+        j = jj if jj < k else SPECIAL_LAYOUT + case["id"] % N_SPECIAL_LAYOUTS
+        d = d0 if obs["d"][jj] == "=" else obs["d"][jj]
+        a = a0 if obs["a"][jj] == "=" else obs["a"][jj]
         stats["evaluations"] += 1
+        if jj >= k:
+            stats["systematic_layouts"] = stats.get("systematic_layouts", 0) + 1
         # ---- first generation (reference) ----------------------------------------------------------------
         alpha_tree = None
         alpha_rejects = False
@@ -73,11 +82,11 @@ def compare_case(case, obs, k, fnd, stats, rep):
             alpha_rejects = True
             stats["alpha_rejects"] += 1
             if not unconstrained:
-                rep.note_drift("the specification derives `%s` but the first generation rejects it (%s)" % (gc.canon(case)[:120], a.get("codes")))
+                rep.note_drift("the specification derives `%s` but the first generation rejects it (%s)" % (gc.shape_key(case)[:160], a.get("codes")))
         else:
             fnd.add("alpha-panic", gc.panic_signature(a.get("panic")), example(case, j, None, a, "the first-generation parser panicked"))
         if alpha_tree is not None and alpha_tree != exp:
-            fnd.add("alpha-tree", gc.diff_signature(exp, alpha_tree),
+            fnd.add("alpha-tree", gc.tree_diff_key(exp, alpha_tree),
                     example(case, j, None, a if a != "=d" else {"tree": alpha_tree}, "the first-generation tree differs from the module's own syntax tree"))
         # ---- second generation ---------------------------------------------------------------------------
         if d["o"] == "panic":
@@ -87,13 +96,13 @@ def compare_case(case, obs, k, fnd, stats, rep):
             if unconstrained or alpha_rejects:
                 stats["unconstrained_rejected"] += 1
             else:
-                fnd.add("delta-rejects-valid", "%s %s" % (sorted(set(d.get("codes") or [])), gc.rejection_shape(gc.canon(case)) or gc.canon(case)),
+                fnd.add("delta-rejects-valid", "%s %s" % (sorted(set(d.get("codes") or [])), gc.shape_key(case)),
                         example(case, j, d, None, "a syntactically valid module is rejected by the second-generation %s" % d.get("stage")))
         else:
             for issue in d.get("wf", []):
                 fnd.add("delta-xml", issue, example(case, j, {"wf": d["wf"]}, None, "the XML dump is not well formed"))
             if d["tree"] != exp:
-                fnd.add("delta-tree", ("undocumented form: " if unconstrained else "") + gc.diff_signature(exp, d["tree"]),
+                fnd.add("delta-tree", ("undocumented form: " if unconstrained else "") + gc.tree_diff_key(exp, d["tree"]),
                         example(case, j, d, None, "the second-generation tree differs from the module's own syntax tree"))
             else:
                 stats["delta_tree_equal"] += 1
@@ -165,7 +174,7 @@ def run(rep, tier, seed, selftest):
                                 "three_way_equal", "corpus_equal", "corpus_alpha_rejects", "corpus_files", "corpus_both_accept")}
     # ---- 1. spec -> impl: every derived module, k layouts, both parsers (streamed) ---------------------------
     obs_path = os.path.join(common.WORK, "C16-obs.ndjson")
-    common.pvh(["replay", d["cases_path"], obs_path, k, seed], exe_name=gc.EXE, env=gc.PVH_ENV)
+    killers = gc.pvh_cases("replay", d["cases_path"], obs_path, [k, seed], layouts=k + 1)
     nontriv = 0
     samples = []
     rnd = random.Random(seed)
@@ -175,6 +184,8 @@ def run(rep, tier, seed, selftest):
     swap_target = None
     kinds = {}
     reps = {}
+    cells_seen = {}
+    eof_kinds = set()
     n_obs = 0
     with open(obs_path) as f:
         for case, line in zip(gc.iter_cases(d["cases_path"]), f):
@@ -193,8 +204,15 @@ def run(rep, tier, seed, selftest):
                 nontriv += 1
             if case["id"] in sample_ids:
                 samples.append({"source_tokens": gc.canon(case), "expected_tree": case["tree"], "delta_layout0": obs["d"][0], "alpha_layout0": obs["a"][0]})
-            if case["id"] in trace_ids:
+            if case["id"] in trace_ids or (case["focus"] == gc.CELLS and not (case["cell"]["fam"] == "deep" and case["cell"]["what"] in UNTRACEABLE_DEEP)):
                 trace_pool.append(case)
+            if case["focus"] == gc.CELLS:
+                fam = case["cell"]["fam"]
+                cells_seen[fam] = cells_seen.get(fam, 0) + 1
+            if case["id"] % N_SPECIAL_LAYOUTS == 0 and case["tree"].get("decls"):
+                # the systematic layout without an end of line: which production is the last thing in the file
+                last = case["tree"]["decls"][-1]
+                eof_kinds.add("opaque struct" if last.get("opaque") else last["k"])
             if swap_target is None and selftest and case["focus"] in ("exprs", "ops") and "bin" in ck \
                     and obs["d"][0].get("o") == "ok" and obs["d"][0]["tree"] == case["tree"]:
                 t = json.loads(json.dumps(case["tree"]))
@@ -202,6 +220,9 @@ def run(rep, tier, seed, selftest):
                     swap_target = (case, obs, t)
     if n_obs != total:
         raise common.ToolError("replay returned %d observations for %d cases" % (n_obs, total))
+    missing_eof = {"fn", "head", "const", "struct", "opaque struct", "word", "import"} - eof_kinds
+    if missing_eof:
+        raise common.ToolError("vacuity: no module in the layout without a final end of line ends with the declarations %s" % sorted(missing_eof))
     shallow = grammar_reps.missing(reps)
     if shallow:
         raise common.ToolError("vacuity: repetitions not reached by the exhaustive derivation (have, need): %s" % shallow)
@@ -218,7 +239,7 @@ def run(rep, tier, seed, selftest):
     for i, c in enumerate(trace_cases):
         c["tid"] = i
     common.write_ndjson(tc_path, [{"id": c["tid"], "toks": c["toks"]} for c in trace_cases])
-    common.pvh(["record", tc_path, tr_path, 4, seed], exe_name=gc.EXE, env=gc.PVH_ENV)
+    killers += gc.pvh_cases("record", tc_path, tr_path, [4, seed])
     records = common.read_ndjson(tr_path)
     by_tid = {c["tid"]: c for c in trace_cases}
     sim_equal = 0
@@ -230,7 +251,7 @@ def run(rep, tier, seed, selftest):
             fnd.add("delta-panic", gc.panic_signature(r.get("panic")), example(c, r.get("layout"), r, None, "the second-generation parser panicked on a valid module"))
             stats["delta_panics"] += 1
         elif r["o"] == "rejected" and c["focus"] not in gc.UNCONSTRAINED:
-            fnd.add("delta-rejects-valid", "%s %s" % (sorted(set(r.get("codes") or [])), gc.rejection_shape(gc.canon(c)) or gc.canon(c)),
+            fnd.add("delta-rejects-valid", "%s %s" % (sorted(set(r.get("codes") or [])), gc.shape_key(c)),
                     example(c, r.get("layout"), r, None, "a valid module is rejected"))
         elif r["o"] == "ok":
             for issue in r.get("wf", []):
@@ -242,7 +263,7 @@ def run(rep, tier, seed, selftest):
     for rj in rejected:
         r = rj["record"]
         c = by_tid.get(r["id"]) if not isinstance(r["id"], str) else None
-        what = gc.canon(c) if c else "corpus %s" % r["id"]
+        what = (gc.cell_label(c) or gc.canon(c)) if c else "corpus %s" % r["id"]
         node = r["pre"][rj["node_index"]] if rj["node_index"] < len(r["pre"]) else "<end of tree>"
         fnd.add("trace", "%s @node %d %s" % (what[:300], rj["node_index"], json.dumps(node, sort_keys=True)),
                 {"message": "the tree the real parser reported is not a parse of the token stream the real lexer produced, "
@@ -265,7 +286,7 @@ def run(rep, tier, seed, selftest):
     coverage = {
         "states": d["states"],
         "transitions": d["transitions"],
-        "traces_validated_against_impl": total * k + len(accepted),
+        "traces_validated_against_impl": stats["evaluations"] + len(accepted),
         "samples": samples + [{"corpus": corpus_samples}],
         "evaluations": stats["evaluations"] + stats["corpus_both_accept"] + len(all_records),
         "distinct_nontrivial": nontriv,
@@ -280,7 +301,13 @@ def run(rep, tier, seed, selftest):
                 "recorded token stream is re-parsed by TLC along the recorded tree. Non-trivial = derived modules with at least 4 syntax nodes." % k,
         "exhaustive": True,
         "modules_derived": total,
-        "layouts_per_module": k,
+        "layouts_per_module": k + 1,
+        "systematic_layouts": "one per module after the %d random ones, in turn by module number: no white space and no end of line at the end of the file / "
+                              "a comment in every gap, the file ends inside a comment / an end of line in every gap" % k,
+        "modules_that_killed_the_harness_process": len(killers),
+        "cells_replayed_per_family": cells_seen,
+        "declarations_that_end_a_file_without_end_of_line": sorted(eof_kinds),
+        "cell_sizes": grammar_cfgs.CELLS[tier],
         "per_focus": d["per_focus"],
         "production_coverage": d["coverage"],
         "productions_never_applied": missing,
@@ -314,6 +341,15 @@ def run(rep, tier, seed, selftest):
         "corpus: the specification side is absent for hand-written files; first- and second-generation trees are compared with each other and the second-generation recording is re-parsed by TLC",
         "the XML reader repairs what it reports (mismatched closing tag, element self-closed and closed again) so that the rest of the tree is still compared",
     ]
+    # the recogniser of the documented grammar (spec/SyntaxRules.tla, docs/notes-syntax.md): this check receives the kinds of
+    # discrepancy that belong to its property (syntax_part.PROPERTY_KINDS); one computation is shared by C02, C13, C15, C16
+    from . import syntax_part
+    syn = syntax_part.run_part(rep, tier, seed, selftest)
+    coverage["syntax_part"] = syn
+    coverage["states"] = coverage.get("states", 0) + syn["states"]
+    coverage["transitions"] = coverage.get("transitions", 0) + syn["transitions"]
+    coverage["traces_validated_against_impl"] = coverage.get("traces_validated_against_impl", 0) + syn["cases_replayed"] + syn["traces_accepted"]
+    coverage["evaluations"] = coverage.get("evaluations", 0) + syn["evaluations"]
     return rep.finish("model_checking", coverage, assumptions)
 
 
@@ -331,6 +367,17 @@ def run_selftests(target, k, records):
         out["swapped_operands_detected"] = any(kind == "delta-tree" for kind, _ in f2.by_key)
     else:
         out["swapped_operands_detected"] = False
+    # (c) a module that kills the harness process is isolated and reported for that module only
+    if target:
+        c = target[0]
+        tin = os.path.join(common.WORK, "C16-selftest-crash-cases.ndjson")
+        tout = os.path.join(common.WORK, "C16-selftest-crash-obs.ndjson")
+        cs = [dict(c, id=1000 + i) for i in range(9)]
+        common.write_ndjson(tin, cs)
+        dead = gc.pvh_cases("replay", tin, tout, [1, 1], layouts=2, env={"PVH_GRAMMAR_TEST_CRASH_ID": "1004"})
+        obs = common.read_ndjson(tout)
+        out["process_death_isolated"] = dead == [1004] and [o["id"] for o in obs] == [x["id"] for x in cs] \
+            and [("crash" in o) for o in obs] == [x["id"] == 1004 for x in cs]
     # (b) a recording with two tokens exchanged / an operator changed must be rejected by Trace_Grammar
     good = [r for r in records if r.get("o") == "ok" and len(r["toks"]) >= 8][:1]
     if good:
@@ -363,6 +410,9 @@ def swap_first_bin(t):
 
 
 def replay(path):
+    if json.load(open(path)).get("detail", {}).get("part") == "syntax":
+        from . import syntax_part
+        return syntax_part.replay(path)
     d = json.load(open(path))
     det = d["detail"]
     print("property C16   kind=%s\nkey=%s\ninputs affected in that run: %s" % (d["kind"], d["key"], det.get("inputs_affected_this_run")))
